@@ -1,8 +1,12 @@
 import Ptn.C09.Model
+import Ptn.C09.GaugeModel
 /-! Line-protocol handler for C09 (core Lean only).
 
   order <id:parent> …   (root has parent `-`; children of a node are taken in order of appearance)
       → `<updates, space separated> | <moves p>c …>`
+  gauge <0|1> <id:parent> …   (1 = fixed rank) the gauge machine of one BUG step on that tree
+      → `<events, separated by ;> | <final record n>v / n>- per node, in pre-order> | pend k | frames …`
+        (`stuck` if the machine cannot run: never on a tree)
 -/
 namespace Ptn.C09
 
@@ -29,8 +33,38 @@ def buildForest (fuel : Nat) (entries : List (Nat × Option Nat)) (ids : List Na
     | i :: rest => .cons (buildTree fuel entries i) (buildForest fuel entries rest)
 end
 
+mutual
+def Tree.toR : Tree → Ptn.C17.RTree
+  | .node id kids => .node id kids.toR
+def Forest.toR : Forest → List Ptn.C17.RTree
+  | .nil => []
+  | .cons t f => t.toR :: f.toR
+end
+
+def parseTree (toks : List String) : Option Tree :=
+  match toks.mapM parseEntry with
+  | none => none
+  | some entries =>
+    match entries.filter (·.2 == none) with
+    | [(r, _)] =>
+      let t := buildTree (2 * entries.length + 2) entries r
+      if t.ids.length ≠ entries.length then none else some t
+    | _ => none
+
+def handleGauge (fixed : Bool) (toks : List String) : String :=
+  match parseTree toks with
+  | none => "bad-op"
+  | some t =>
+    let r := t.toR
+    let evs := Gauge.bugEvents fixed r
+    match Gauge.run (Gauge.start (fun _ => none) r) evs with
+    | none => "stuck"
+    | some s => " ; ".intercalate (evs.map Gauge.showGEv) ++ " | " ++ Gauge.showState (Ptn.C17.RTree.ids r) s
+
 def handle (args : List String) : String :=
   match args with
+  | "gauge" :: "0" :: toks => handleGauge false toks
+  | "gauge" :: "1" :: toks => handleGauge true toks
   | "order" :: toks =>
     match toks.mapM parseEntry with
     | none => "bad-op"
